@@ -166,15 +166,18 @@ class Integrate:
             method = "chebyshev"
         if nnodes is None:
             nnodes = 1 + curve.degree
+            if method == "closed-newton-cotes":
+                nnodes = max(2, nnodes)
         nodes_func = nodes_functs[method]
         integ_array_func = array_functs[method]
         nodes_0to1 = nodes_func(nnodes)
         integ_array = integ_array_func(nnodes)
-        knots = curve.knotvector.knots
         integrals = []
-        for start, end in zip(knots[:-1], knots[1:]):
-            nodes = tuple(start + (end - start) * node for node in nodes_0to1)
-            curve_vals = tuple(curve.eval(node) for node in nodes)
+        for bezier in curve.split():
+            # Each span's own piece: a closed rule samples the span's ends
+            start, end = bezier.knotvector.limits
+            nodes = tuple((1 - node) * start + node * end for node in nodes_0to1)
+            curve_vals = tuple(bezier.eval(node) for node in nodes)
             function_vals = tuple(function(node) for node in nodes)
             new_integral = sum(
                 map(np.prod, zip(integ_array, function_vals, curve_vals))
@@ -270,15 +273,18 @@ class Integrate:
             method = "chebyshev"
         if nnodes is None:
             nnodes = 1 + curve.degree
+            if method == "closed-newton-cotes":
+                nnodes = max(2, nnodes)
         nodes_func = nodes_functs[method]
         integ_array_func = array_functs[method]
         nodes_0to1 = nodes_func(nnodes)
         integ_array = integ_array_func(nnodes)
-        knots = curve.knotvector.knots
         integrals = []
-        for start, end in zip(knots[:-1], knots[1:]):
-            nodes = tuple(start + (end - start) * node for node in nodes_0to1)
-            curve_vals = tuple(curve.eval(node) for node in nodes)
+        for bezier in curve.split():
+            # Each span's own piece: a closed rule samples the span's ends
+            start, end = bezier.knotvector.limits
+            nodes = tuple((1 - node) * start + node * end for node in nodes_0to1)
+            curve_vals = tuple(bezier.eval(node) for node in nodes)
             abscurve_vals = tuple(np.sqrt(val @ val) for val in curve_vals)
             function_vals = tuple(function(node) for node in nodes)
             new_integral = sum(
